@@ -312,3 +312,25 @@ Proof.
   intros FV -> ->. rewrite app_assoc.
   apply slice_mid; rewrite len_app, fdir_layout_len by exact FV; lia.
 Qed.
+
+(* __eq__ of the common part is reflexive *)
+Lemma ubf_eqb_refl u : ubf_eqb u u = true.
+Proof. unfold ubf_eqb. rewrite !Z.eqb_refl. reflexivity. Qed.
+Lemma hdr_eqb_refl h : hdr_eqb h h = true.
+Proof. unfold hdr_eqb. rewrite !Z.eqb_refl, !ubf_eqb_refl. reflexivity. Qed.
+Lemma fdir_eqb_refl f : fdir_eqb f f = true.
+Proof. unfold fdir_eqb. rewrite hdr_eqb_refl, Z.eqb_refl. reflexivity. Qed.
+
+Lemma get_first_param f x (r : bytes) : fdir_valid f ->
+  py_get (fdir_layout f ++ x :: r) (fdir_header_len f) = Ok x.
+Proof.
+  intros FV. rewrite py_get_app_r by (rewrite fdir_layout_len by exact FV; lia).
+  rewrite fdir_layout_len by exact FV. rewrite Z.sub_diag. apply py_get_cons_0.
+Qed.
+Lemma get_second_param f x y (r : bytes) : fdir_valid f ->
+  py_get (fdir_layout f ++ x :: y :: r) (fdir_header_len f + 1) = Ok y.
+Proof.
+  intros FV. rewrite py_get_app_r by (rewrite fdir_layout_len by exact FV; lia).
+  rewrite fdir_layout_len by exact FV. replace (fdir_header_len f + 1 - fdir_header_len f) with 1 by lia.
+  reflexivity.
+Qed.
